@@ -1,11 +1,17 @@
 #!/bin/sh
-# usage: build.sh <name> [asan]   builds harness/cxx/<name>.cpp against the library rebuilt from /repo
+# usage: build.sh <name> [asan]
+# builds harness/cxx/<name>.cpp against the library rebuilt from /repo's working tree (.build/repo-rel).
+# If the source contains Q_OBJECT, moc output is generated as <name>.moc (put `#include "<name>.moc"` at the end of the file).
 set -e
 V=$(cd "$(dirname "$0")/.." && pwd)
 N=$1; SAN=""
-[ "$2" = "asan" ] && SAN="-fsanitize=address,undefined -fno-sanitize-recover=all"
-mkdir -p $V/.build/harness
-exec g++ -std=c++20 -O1 -g $SAN -fPIC -DQXMPP_VERIF -I$V/harness/cxx -I/repo/src/base -I/repo/src/client -I/repo/src/server -I/repo/tests \
-  -I$V/.build/repo-rel/src $(pkg-config --cflags Qt5Core Qt5Network Qt5Xml) \
+[ "$2" = "asan" ] && SAN="-fsanitize=address,undefined -fno-sanitize-recover=all -fno-omit-frame-pointer"
+mkdir -p $V/.build/harness/moc_$N
+QTFLAGS=$(pkg-config --cflags Qt5Core Qt5Network Qt5Xml Qt5Test)
+INCS="-I$V/harness/cxx -I/repo/src/base -I/repo/src/client -I/repo/src/server -I/repo/tests -I$V/.build/repo-rel/src -I$V/.build/harness/moc_$N"
+if grep -q Q_OBJECT $V/harness/cxx/$N.cpp; then
+  moc $INCS $QTFLAGS -DQXMPP_VERIF $V/harness/cxx/$N.cpp -o $V/.build/harness/moc_$N/$N.moc
+fi
+exec g++ -std=c++20 -O1 -g $SAN -fPIC -DQXMPP_VERIF $INCS $QTFLAGS \
   $V/harness/cxx/$N.cpp -o $V/.build/harness/$N \
-  -L$V/.build/repo-rel/src -lQXmppQt5 $(pkg-config --libs Qt5Core Qt5Network Qt5Xml) -Wl,-rpath,$V/.build/repo-rel/src
+  -L$V/.build/repo-rel/src -lQXmppQt5 $(pkg-config --libs Qt5Core Qt5Network Qt5Xml Qt5Test) -Wl,-rpath,$V/.build/repo-rel/src
